@@ -3650,8 +3650,13 @@ class ControlConnection(object):
         Replace existing connection (if there is one) and close it.
         """
         with self._lock:
-            old = self._connection
-            self._connection = conn
+            if self._is_shutdown:
+                # shut down while (re)connecting: nothing will ever close
+                # this connection once it is installed
+                old = conn
+            else:
+                old = self._connection
+                self._connection = conn
 
         if old:
             log.debug("[control connection] Closing old connection %r, replacing with %r", old, conn)
